@@ -10,6 +10,7 @@ use std::panic::{catch_unwind, AssertUnwindSafe};
 
 mod common;
 mod geom;
+mod plan;
 
 pub const PANIC: u128 = 340282366920938463463374607431768211455; // 2^128-1
 
@@ -19,6 +20,8 @@ fn run_case(family: &str, args: &[u128]) -> Vec<u128> {
         "restricted" => geom::restricted(args),
         "tree" => geom::tree(args),
         "offsets" => geom::offsets(args),
+        "plan" | "planspec" => plan::plan(args),
+        "ranges" => plan::ranges(args),
         _ => panic!("unknown family {family}"),
     }
 }
